@@ -59,5 +59,90 @@ PROPS = {
         level_note=COMMON_NOTE),
 }
 
+PROPS.update({
+    "C01": dict(
+        streams=[dict(cmd="C01")],
+        technique="Lean 4 refinement proof (draw_to_term against a VT100 grid model, induction over draw-request histories) + screen-exact differential correspondence",
+        level_text="Redraw integrity (screen = printed lines ++ current frame, no residue, cursor parked for following output) is proved in Lean for every history of draw "
+                   "requests on every terminal width; the model's screen and cursor equal the vt100-emulated screen of the real crate at every flush of generated histories.",
+        level_note=COMMON_NOTE + "Glyphs of width <= 1 in the theorems; move_cursor=false; the vt100 emulator stands for the terminal.",
+        claimed=False),
+    "C02": dict(
+        streams=[dict(cmd="C02")],
+        technique="Lean 4 refinement proof (slot bookkeeping refines the documented order; invariant over every MultiProgress operation history) + differential correspondence",
+        level_text="The ordering/free-set bookkeeping of MultiState is proved to refine the documented list-of-bars order for every operation history, with the slot partition "
+                   "kept by every operation; screens of the real MultiProgress equal the model's at every flush and are judged by an order/once-only oracle.",
+        level_note=COMMON_NOTE + "Concurrency: draws are serialised by the multi write lock (lock-trace correspondence of C08).",
+        claimed=False),
+    "C03": dict(
+        streams=[dict(cmd="C03"), dict(cmd="C03b")],
+        technique="Lean 4 proof (a redraw with erase count n leaves every row above the last n in place) + differential correspondence + log-preservation oracle",
+        level_text="Rows above the managed region are proved untouched by any redraw; log preservation over MultiProgress histories is decided by the oracle on the real "
+                   "screen with the model run in lock-step (top and bottom alignment, rate-limited targets).",
+        level_note=COMMON_NOTE,
+        claimed=False),
+    "C04": dict(
+        streams=[dict(cmd="C04")],
+        technique="Lean 4 theorems (finish/drop emit exactly the forced draw of the final state, for every limiter state) + differential correspondence",
+        level_text="For every bar state, limiter state and finish kind the finishing call is proved to paint exactly the final frame without consulting the limiter; drop is "
+                   "proved equal to finish_using_style or a no-op; final frames of real histories are compared with the model and judged by the final-rendering oracle.",
+        level_note=COMMON_NOTE,
+        claimed=False),
+    "C08": dict(
+        streams=[dict(cmd="C08")],
+        technique="Lean 4 proof (lock-rank ordering of every public call's lock program implies progress) + lock-trace correspondence through the sync shim",
+        level_text="Every public call's lock program is proved rank-ordered and balanced, which implies that some thread can always step; the programs are compared with "
+                   "the acquire/release/join traces recorded from the real crate for every call x configuration.",
+        level_note=COMMON_NOTE + "std::sync primitives modelled by their documented semantics; OS scheduler fairness not modelled.",
+        claimed=False),
+    "C09": dict(
+        streams=[dict(cmd="C09", float_bits=True)],
+        technique="Lean 4 theorems over an ordered field with an exponential weight + bit-level correspondence of the Float transcription",
+        level_text="The steady-rate fixed point of the double-exponential estimator is proved over any ordered field; the Float transcription reproduces the crate's outputs.",
+        level_note=COMMON_NOTE + "libm pow is outside the model (relative tolerance 1e-9).",
+        claimed=False),
+    "C10": dict(
+        streams=[dict(cmd="C10")],
+        technique="Lean 4 proof of totality of the transcribed parser state machine (induction over the input string) + exhaustive/generated differential classification",
+        level_text="The arm-by-arm Lean transcription of the template parser is proved never to panic on any string; its Ok/Err(state,char) classification equals the real "
+                   "parser's on all short strings over the brace alphabet, random Unicode strings and grammar-generated templates, whose rendering is judged for fidelity.",
+        level_note=COMMON_NOTE,
+        ),
+    "C12": dict(
+        streams=[dict(cmd="C12")],
+        technique="Lean 4 theorems about the padding/truncation function on glyph lists + output-exact differential correspondence",
+        level_text="Exact width and placement of padded fields and the non-truncating case are proved for all contents; outputs of the real crate equal the model's.",
+        level_note=COMMON_NOTE,
+        claimed=False),
+    "C14": dict(
+        streams=[dict(cmd="C14")],
+        technique="Lean 4 proof that every style accepted by the modelled builder renders without panic, for all ticks/states + accept/panic correspondence",
+        level_text="Builder assertions are transcribed; every accepted style is proved to render without index/division panics for every tick up to 2^64-1 and every width; "
+                   "accept/panic behaviour of the real builder and renderer equals the model's on generated builder chains.",
+        level_note=COMMON_NOTE,
+        ),
+    "C17": dict(
+        streams=[dict(cmd="C17")],
+        technique="Lean 4 proof (position after any sequence of wrapped I/O calls = bytes transferred) + scripted-source differential correspondence",
+        level_text="For every call sequence over scripted sources/sinks the wrapper position is proved to advance by exactly the bytes transferred; the real wrappers are run "
+                   "on the same scripts and compared with the bare object and the model.",
+        level_note=COMMON_NOTE,
+        claimed=False),
+    "C18": dict(
+        streams=[dict(cmd="C18", oracle_only=True)],
+        technique="Lean 4 theorem (logical state independent of the target, every history) + exhaustive fault-index enumeration per history on the real crate",
+        level_text="Logical state is proved independent of whatever the terminal does; for generated histories every fault index (once and sticky) is run on the real crate "
+                   "with catch_unwind per call, comparing getters with a fault-free twin.",
+        level_note=COMMON_NOTE,
+        claimed=False),
+    "C19": dict(
+        streams=[dict(cmd="C19")],
+        technique="Lean 4 proof (kept row count never exceeds the terminal height, every frame sequence; wrapped height = rows of wrap) + differential correspondence",
+        level_text="last_line_count <= H is proved for every frame sequence and alignment, and the wrapped-height formula is proved equal to the rows written; screens of "
+                   "the real crate on terminals from 1x1 up equal the model's.",
+        level_note=COMMON_NOTE + "Glyph width <= 1 in the theorems.",
+        claimed=False),
+})
+
 for _p, _d in PROPS.items():
     _d.setdefault("claimed", True)
